@@ -96,6 +96,42 @@ def check_layouts(H, out, stats):
             out.append(("layout-raises", f"edge_positions_from_barycenters raised {type(e).__name__}: {e}"))
 
 
+def check_directed(D, out, stats):
+    """The layout / drawing entry points that accept a DiHypergraph: barycentres over tail | head, bipartite layout with
+    one position per node and per edge, draw_bipartite."""
+    import xgi
+
+    nodes, edges = list(D.nodes), list(D.edges)
+    dm = D.edges.dimembers(dtype=dict)
+    mem = {e: set(t) | set(h) for e, (t, h) in dm.items()}
+    if nodes and all(len(m) for m in mem.values()):
+        pos = {n: np.array([math.cos(1.7 * i) * (i + 1), math.sin(1.7 * i) + 0.3 * i]) for i, n in enumerate(nodes)}
+        stats["n"] += 1
+        try:
+            ep = xgi.edge_positions_from_barycenters(D, pos)
+            if set(ep) != set(edges):
+                out.append(("barycenter", f"edge_positions_from_barycenters(directed) keys {list(ep)} != edges {edges}"))
+            else:
+                for e, m in mem.items():
+                    want = np.mean([pos[n] for n in m], axis=0)
+                    if not np.allclose(ep[e], want, atol=1e-12):
+                        out.append(("barycenter", f"edge_positions_from_barycenters(directed)[{e!r}] = {ep[e]}, mean over "
+                                    f"tail | head = {sorted(m, key=repr)} is {want}"))
+                        break
+        except Exception as e:  # noqa: BLE001
+            out.append(("layout-raises", f"edge_positions_from_barycenters(directed) raised {type(e).__name__}: {e}"))
+    if nodes and edges and all(len(m) for m in mem.values()):
+        stats["n"] += 1
+        try:
+            ax, cols = xgi.draw_bipartite(D, ax=_ax())
+            nc, ec = cols[0], cols[1]
+            if len(nc.get_offsets()) != len(nodes) or len(ec.get_offsets()) != len(edges):
+                out.append(("markers", f"draw_bipartite(directed): {len(nc.get_offsets())} node markers / {len(ec.get_offsets())} edge "
+                            f"markers for {len(nodes)} nodes / {len(edges)} edges"))
+        except Exception as e:  # noqa: BLE001
+            out.append(("draw-raises", f"draw_bipartite(directed) raised {type(e).__name__}: {e}"))
+
+
 _FIG = None
 
 
@@ -272,6 +308,11 @@ def _work(item):
         warnings.simplefilter("ignore")
         try:
             H = F.build(spec)
+            if kind == "directed":
+                check_directed(H, out, stats)
+                F.detour(H)
+                F.morph(H)
+                check_directed(H, out, stats)
             if kind in ("layout", "both"):
                 check_layouts(H, out, stats)
             if kind in ("draw", "both"):
@@ -325,6 +366,10 @@ def family(tier):
         items.append(("both", s))
         if k % 6 == 0 and s["nodes"]:
             items.append(("both", F.relabel(s, node_map={n: "v%d" % (9 - n) for n in s["nodes"]})))
+    # directed hypergraphs (tail and head overlapping, disjoint, empty on one side) for the entry points that accept them
+    for s in list(F.directed([1, 2, 3], 2, isolated=True))[::(9 if q else 1)]:
+        items.append(("directed", s))
+    items.append(("directed", F.D([(["x", "y"], ["y", "z", "w"]), ([10], [10, 11, 12])], nodes=["x", "y", "z", "w", 10, 11, 12, "iso"])))
     items.append(("both", F.S([[1, 2, 3, 4, 5]], nodes=[1, 2, 3, 4, 5, 6])))
     items.append(("both", F.H([[1, 2, 3, 4, 5], [5, 6], [6, 7, 8]], nodes=[1, 2, 3, 4, 5, 6, 7, 8, 9])))
     return items
